@@ -16,6 +16,7 @@ import bisect
 import io
 import logging
 import struct
+import traceback
 import xml.etree.ElementTree as et
 from fractions import Fraction
 
@@ -182,11 +183,28 @@ def _probe_times(sig):
   return out
 
 
+def disc_of(e):
+  """kernel.exc_disc (Type@file:function of the innermost ttconv frame); for RecursionError the innermost frame is wherever the
+  stack happened to run out, so the most frequent ttconv frame (the function that recurses) is used instead"""
+  if isinstance(e, RecursionError):
+    cnt = {}
+    for fs in traceback.extract_tb(e.__traceback__):
+      fn = fs.filename.replace("\\", "/")
+      if "/ttconv/" in fn and "/verif/" not in fn:
+        k = f"{fn.split('/ttconv/', 1)[1]}:{fs.name}"
+        cnt[k] = cnt.get(k, 0) + 1
+    if cnt:
+      return "RecursionError@" + max(sorted(cnt), key=lambda k: cnt[k])
+  return exc_disc(e)
+
+
 def _report(acc, case, clause, e, seen, note=""):
-  d = exc_disc(e)
-  if (clause, d) in seen:
+  """one report per distinct failure site per document: a failure already attributed to an earlier stage of the same document
+  (the snapshot stage runs first, then the writers, then filter and pipeline) is not reported again under a later clause"""
+  d = disc_of(e)
+  if d in seen:
     return
-  seen.add((clause, d))
+  seen.add(d)
   acc.violation(clause, d, _witness(case), observed=repr(e)[:300], expected="completes without an exception", note=note)
 
 
@@ -312,7 +330,7 @@ def check(case, acc):
     if isinstance(e, ALLOWED):
       acc.case(f"{fmt}:raises {_exc_class(e)}")
       return
-    acc.violation(f"C18.reader.{fmt}", exc_disc(e), _witness(case), observed=repr(e)[:300],
+    acc.violation(f"C18.reader.{fmt}", disc_of(e), _witness(case), observed=repr(e)[:300],
                   expected="a document, None after a fatal/error log record, or ParseError / ValueError / struct.error")
     acc.case(f"{fmt}:raises-internal")
     return
@@ -427,7 +445,11 @@ def _shrink_xml(base, text):
       for i in range(len(toks)):
         yield dict(base, text=g.join_tokens(toks[:i] + toks[i + 1:]))
     return
-  tree = g.from_et(root)
+  try:
+    tree = g.from_et(root)
+    g.ser(tree)
+  except RecursionError:
+    return          # deeply nested witness: the depth is the point, nothing to reduce structurally
   nodes = list(g._walk(tree))  # pylint: disable=protected-access
   for path, nd in nodes:
     if path:
@@ -533,7 +555,7 @@ def _pool(tier, seed):
 
 def seed_families(tier, seed):
   thorough = tier == "thorough"
-  pairs_tok = 25 if thorough else 4
+  pairs_tok = 12 if thorough else 4
   fams = []
   for fmt, seeds in (("srt", g.SRT_SEEDS), ("vtt", g.VTT_SEEDS), ("scc", g.SCC_SEEDS)):
     spaces = g.text_spaces(fmt, seeds, pairs_tok)
@@ -594,23 +616,32 @@ def corpus_families(tier, seed):
         continue
       lt, wt = g.tok_lines(text), g.tok_words(fmt, text)
       wpt = "wpt-tests" in rel
-      if thorough or not wpt or k % 8 == seed % 8:
-        spaces.append(g.DevSpace(rel + "/lines", fmt, lt))
-        nfull += 1
+      big = len(wt) > 100
+      if wpt:
+        sel = k % 8 == seed % 8 if thorough else k % 16 == seed % 16
+        if thorough or sel:
+          spaces.append(g.DevSpace(rel + "/lines", fmt, lt))
+          nfull += 1
+        else:
+          spaces.append(g.DevSpace(rel + "/lines", fmt, lt, positions=[]))       # the file itself (0 deviations)
+        if thorough and sel:
+          spaces.append(g.DevSpace(rel + "/words", fmt, wt))
+      elif big and not thorough:
+        spaces.append(g.DevSpace(rel + "/lines", fmt, lt, values={"line": g.GENERIC}))
+        caps.append(f"{rel} ({len(lt)} lines, {len(wt)} words): line tokens with the boundary-value menu only, word tokens not deviated")
       else:
-        spaces.append(g.DevSpace(rel + "/lines", fmt, lt, positions=[]))       # the file itself (0 deviations)
-      if thorough or (not wpt and len(wt) <= 100):
+        spaces.append(g.DevSpace(rel + "/lines", fmt, lt))
         spaces.append(g.DevSpace(rel + "/words", fmt, wt))
-      elif not wpt:
-        caps.append(f"{rel}: word tokens not deviated in the quick tier ({len(wt)} tokens)")
     note = f"{len(by.get(fmt, []))} bundled files; 0 and 1 deviation; "
-    if thorough:
-      note += "every line token and every word token of every file"
-    elif fmt == "vtt":
-      note += (f"every line and word token of the 4 ttconv files; CAP: of the 128 wpt-tests files the VERIF_SEED-selected eighth ({nfull - 4} files) gets "
-               "every line token deviated, the others are read unchanged; word tokens of wpt-tests files only in the thorough tier")
+    if fmt == "vtt":
+      note += "every line and word token of the 4 ttconv files; "
+      if thorough:
+        note += "every line token of the 128 wpt-tests files; CAP: word tokens of the VERIF_SEED-selected eighth of the wpt-tests files"
+      else:
+        note += (f"CAP: of the 128 wpt-tests files the VERIF_SEED-selected sixteenth ({nfull} files) gets every line token deviated, the others are "
+                 "read unchanged; word tokens of wpt-tests files only in the thorough tier")
     else:
-      note += "every line token of every file, every word token of files with <= 100 word tokens; CAP: " + "; ".join(caps)
+      note += "every line token and every word token of every file" + ("; CAP: " + "; ".join(caps) if caps else "")
     if spaces:
       fams.append(_union(f"dev[{fmt} corpus]", spaces, note))
   if by.get("stl"):
@@ -622,10 +653,11 @@ def corpus_families(tier, seed):
         continue
       full = k % 4 == seed % 4
       nfull += full
-      spaces.append(g.StlSpace(rel, data, 0, tf_bytes=False, only=None if full else "tti"))
-    note = f"{len(by['stl'])} bundled files; 0 and 1 deviation; every TTI field and every block-level deviation / cut of every file; "
-    note += ("every GSI field and every TF byte of every file" if thorough else
-             f"CAP: GSI fields on the VERIF_SEED-selected quarter ({nfull} files); TF fields deviated as a whole, byte by byte only in the thorough tier")
+      spaces.append(g.StlSpace(rel, data, 0, tf_bytes=False, only=None if full else "none"))
+    note = f"{len(by['stl'])} bundled files; 0 and 1 deviation; every block-level deviation and cut (block boundary, +1, +64) of every file; "
+    note += ("every GSI field, TTI field and TF byte of every file" if thorough else
+             f"CAP: GSI and TTI fields on the VERIF_SEED-selected quarter ({nfull} files), TF fields deviated as a whole; byte by byte and all files "
+             "only in the thorough tier")
     fams.append(_union("dev[stl corpus]", spaces, note))
   if by.get("ttml"):
     spaces = []
